@@ -57,6 +57,7 @@ class E2E:
         tree = ast.parse(stored)
         r = self.drv.call("c01.spec", tree=fe.export(tree))
         self.ctx.dist("hypothesis treeOk holds on the (tweaked) real tree" if r["wf"] else "hypothesis treeOk FAILS on the (tweaked) real tree")
+        self.ctx.dist("hypotheses of C01_node_labels_pipeline (wfStages6 + treeOk stage6) " + ("hold" if r["wf_pipeline"] else "FAIL") + " on the real tree")
         return collections.Counter((t, ln) for t, ln in r["nodes"]), tree
 
     def got_from_labels(self, labels, exp):
@@ -499,6 +500,7 @@ def run(ctx):
     )
     ctx.cov["proved"] = [
         "C01_node_labels: on the dump of a well-formed tree the matcher yields exactly one (type, own line) per positioned node, nothing else for positioned types",
+        "C01_node_labels_pipeline: the same on what flatten_ast returns (through C15_tweaks_full), for the tweaked tree stage6",
         "C01_same_text: the parser is given exactly program.source (data flow of the model)",
     ]
     ctx.cov["exercised_only"] = [
